@@ -58,6 +58,8 @@ CELLS = [
     "class NAME:\n    def meth(self, x: int):\n        return x\n",
     "'a cell docstring'\nfrom __future__ import annotations\ndef NAME(x: int):\n    return x\n",
     "if True:\n    def NAME(x: int):\n        return x\n",
+    # a cell with top-level await (IPython's autoawait): compiled with PyCF_ALLOW_TOP_LEVEL_AWAIT
+    "import asyncio\nawait asyncio.sleep(0)\ndef NAME(x: int):\n    return x\n",
 ]
 
 @st.composite
